@@ -416,4 +416,5 @@ def run(ctx):
     from . import c09
     c09.rule_cache_invalidation(ctx)   # R09.10: the Jacobi/heliocentric copy the Kepler step advances is refreshed whenever the particles changed
     c09.rule_exact_finish(ctx)         # R09.11
+    c09.rule_keep_unsynchronized(ctx)   # R09.3/R09.9: the state handed back by a synchronise is the synchronised one
     ctx.not_decided.append('exactness of the propagation to rounding error; correctness of the Newton/quartic/bisection selection; NaN freedom for all finite input; agreement of the AVX512 solver with the scalar one')
